@@ -325,6 +325,7 @@ type VC struct {
 	maxDepth     int
 	modelVals    []string // terms worth reporting in counterexamples
 	modelLbl     map[string]string
+	fvPtr        map[string]*Val // captured variables of a function literal under contract: name -> pointer to its cell
 	iters        map[*ssa.Range]*iterState
 	defs         map[string]string
 	inlineCount  int
@@ -338,7 +339,7 @@ type VC struct {
 func newVC(e *Engine, fn *ssa.Function, c *Contract) *VC {
 	x := &VC{eng: e, fn: fn, c: c, mode: "math", comps: map[string]*Comp{}, externs: map[string]bool{}, inlined: map[string]bool{},
 		callsBy: map[string]bool{}, oblNames: map[string]int{}, lemmasUse: map[string]bool{}, ghostEvt: map[string]int{},
-		maxDepth: 8, modelLbl: map[string]string{}, iters: map[*ssa.Range]*iterState{}, defs: map[string]string{}, boxOrigin: map[string]*Val{}}
+		maxDepth: 8, modelLbl: map[string]string{}, fvPtr: map[string]*Val{}, iters: map[*ssa.Range]*iterState{}, defs: map[string]string{}, boxOrigin: map[string]*Val{}}
 	if c != nil {
 		x.mode = c.Mode
 		x.noOvf = c.NoOvf != ""
